@@ -130,8 +130,18 @@ def only_registered(ctx):
         ty = [n for s in lp.body for n in walk_local(s) if isinstance(n, ast.If) and unparse(n.test) == "rtype not in _CLEANUP_FUNCS" and any(isinstance(x, ast.Raise) for x in n.body)]
         ctx.check(bool(ty) and g.every_path_to(g.nodes_of(c), g.nodes_of_all(ty)), ty[0] if ty else lp, "unknown resource types are rejected before any command branch")
     sp = [a for s in lp.body for a in walk_local(s) if isinstance(a, ast.Assign) and isinstance(a.targets[0], ast.Tuple) and [dotted(e) for e in a.targets[0].elts] == ["cmd", "name", "rtype"]]
-    ok = bool(sp) and [unparse(e) for e in sp[0].value.elts] == ["splitted[0]", "':'.join(splitted[1:-1])", "splitted[-1]"]
-    ctx.check(ok, sp[0] if sp else lp, "request = cmd : name (may contain ':') : rtype", "request parsing changed: %s" % (unparse(sp[0].value) if sp else None))
+    ctx.need(sp, "the statement that splits a request into cmd, name, rtype was not found")
+    v_ = sp[0].value
+    if isinstance(v_, ast.Tuple):
+        ok = [unparse(e) for e in v_.elts] == ["splitted[0]", "':'.join(splitted[1:-1])", "splitted[-1]"]
+        ctx.check(ok, sp[0], "request = cmd : name (may contain ':') : rtype", "request parsing changed: %s" % unparse(v_))
+    elif isinstance(v_, ast.Call) and call_attr(v_) in ("split", "rsplit") and v_.args and const_value(v_.args[0]) == ":":
+        # three fields cut by ONE split call: the name is whatever lies between the FIRST and the LAST colon, which a single
+        # split / rsplit with a limit of 2 (or none) cannot give when the name itself contains a colon
+        ctx.bad(sp[0], "a request is cut into (cmd, name, rtype) by `%s`: a tracked path that contains ':' (a Windows drive, a time-stamped folder) is split in the wrong place, the request is "
+                       "refused as unknown and the resource is never cleaned up" % unparse(v_, 80), key=RT + "::main::request parsing")
+    else:
+        raise Undecidable("request parsing has a shape the rule does not know: %s" % unparse(v_, 80))
 
 
 def survives(ctx):
@@ -546,4 +556,6 @@ def run(ctx):
     ctx.run("C20.FINAL", "R-ORDER", final)
     ctx.run("C20.VOCAB", "R-TABLE", vocab)
     ctx.run("C20.CLIENT-PAIRING", "R-ORDER", client_pairing)
+    from . import mem as _mem
+    ctx.run("C11.DELETE-LOOP", "R-PROGRESS", _mem.delete_folder_loop)
     ctx.run("C20.CONTEXTS", "R-ORDER", contexts)
